@@ -16,7 +16,8 @@ EXPLANATION = (
     "over long horizons."
     " The purge of a restarted ResolveHostname search compares lower-cased names on both sides."
     " (e) Every retain on the rerun queue keeps the commands of other kinds."
-    " Every path that replaces the searcher in its map purges the replaced searcher's reruns, also paths that schedule nothing (cache-only). A query site outside the named handlers counts as a refresh source only if it is driven by a DnsCache::refresh_due_* result.")
+    " Every path that replaces the searcher in its map purges the replaced searcher's reruns, also paths that schedule nothing (cache-only). A query site outside the named handlers counts as a refresh source only if it is driven by a DnsCache::refresh_due_* result."
+    " The retain predicate of a rerun purge drops exactly the entries whose name equals the search's name (polarity).")
 UNDECIDED = ["query rates over long horizons as numbers", "interplay of refresh queries and the schedule"]
 
 # frozen classification of query sources (function -> class); a caller not in the table is an unclassified source
